@@ -67,3 +67,31 @@ def _v7(repo, mod):
     fn = _write(repo)
     s = find_stmt(fn, lambda s: isinstance(s, ast.If) and "FloatAssertion" in norm(s.test))
     return insert_before(mod, s, "_unused = idx")
+
+
+@variant("C18", "public-names-own-only", EX, "C18.public-names", "names the module imported (an enum class) are left out of the import line")
+def _v20(repo, mod):
+    fn = repo.func(EX, "_public_sut_names")
+    r = find_stmt(fn, lambda s: isinstance(s, ast.Return))
+    return replace_node(mod, r.value, 'sorted(name for name in dir(module) if not name.startswith("_") and name != module_alias and getattr(getattr(module, name), "__module__", module.__name__) == module.__name__)')
+
+
+@variant("C18", "public-names-unsorted-with-alias", EX, "C18.public-names", "the alias is imported over itself")
+def _v21(repo, mod):
+    fn = repo.func(EX, "_public_sut_names")
+    r = find_stmt(fn, lambda s: isinstance(s, ast.Return))
+    return replace_node(mod, r.value, 'sorted(name for name in dir(module) if not name.startswith("_"))')
+
+
+@variant("C18", "exception-types-of-last-test-only", EX, "C18.accumulate", "the accumulator is rebound per test case")
+def _v22(repo, mod):
+    fn = repo.func(EX, "TestSuiteWriter.write")
+    s = find_stmt(fn, lambda s: isinstance(s, ast.Expr) and norm(s.value) == "used_exc_types.update(func_used_exc_types)")
+    return replace_node(mod, s, "used_exc_types = set(func_used_exc_types)")
+
+
+@variant("C18", "twin-accumulate-by-union-update", EX, None, "|= instead of update() stays silent")
+def _v23(repo, mod):
+    fn = repo.func(EX, "TestSuiteWriter.write")
+    s = find_stmt(fn, lambda s: isinstance(s, ast.Expr) and norm(s.value) == "used_exc_types.update(func_used_exc_types)")
+    return replace_node(mod, s, "used_exc_types |= func_used_exc_types")
